@@ -376,6 +376,24 @@ def check_reassembly(ctx):
     ctx.check(bad_resets >= 1, "T2-reassembly-state", "bad-record-resets", f.name, f.loc,
               "a damaged fragment ends the current logical record",
               "BAD_RECORD no longer clears the fragmented-record state")
+    # ... on every path, whatever else is tested there: a fragment state that survives a dropped block lets the
+    # orphaned MIDDLE/LAST fragments of the damaged record be delivered as a record of their own
+    from ..rules import sequences_under
+
+    def val(t):
+        kk = key(t)
+        if kk == T:
+            return BADREC
+        if kk == "in_fragmented_record":
+            return 1
+        return None
+    tok = lambda e: "reset" if (e["e"] == "asg" and key(e["lhs"]) == "in_fragmented_record" and const_val(e["rhs"]) == 0) else \
+        ("ret" if e["e"] == "ret" else None)
+    seqs = sequences_under(f, tok, val, start=lambda e: e["e"] in ("asg", "decl") and (key(e.get("lhs")) == T or e.get("n") == T))
+    bad = [x for x in seqs if "reset" not in x]
+    ctx.check(bool(seqs) and not bad, "T2-reassembly-state", "bad-record-resets-always", f.name, f.loc,
+              "inside a fragmented record a damaged fragment always ends it",
+              "a BAD_RECORD inside a fragmented record can leave the fragment state set (%d of %d path classes)" % (len(bad), len(seqs)))
     # EOF: nothing delivered
     for b, i, e in f.events("ret"):
         atoms = g.must_at(b, i)
